@@ -246,6 +246,9 @@ func refSchnorrVerify(pk, sig, msg []byte) bool {
 
 // refSchnorrSign: BIP340 Sign(sk, m, a); nil when it fails.
 func refSchnorrSign(msg, sk, aux []byte) []byte {
+	if len(sk) != 32 { // BIP340: "the secret key sk: a 32-byte array"
+		return nil
+	}
 	d0 := new(big.Int).SetBytes(sk)
 	if d0.Sign() == 0 || d0.Cmp(refN) >= 0 {
 		return nil
